@@ -627,3 +627,201 @@ Proof.
   destruct (w_now w <=? d) eqn:E; [|lia].
   destruct (parse_enum FUEL (q_replies q) f) as [[i v]|e| |]; reflexivity.
 Qed.
+
+(* ================================================================== a whole exchange: the two models agree *)
+(* Polling a sequence inside the client until it says it is done (Client.seq_next) produces exactly the items and exactly
+   the writes of the trace model Sequence.run_seq on the buffered bytes — the model C05 / C06 / C11 are proved about and the
+   model C07..C10 / C18..C20 are proved about are two views of one semantics. *)
+
+Fixpoint poll_loop (k : nat) (q : seqdef) (id d : N) (w : world) : list item * world :=
+  match k with
+  | O => ([], w)
+  | S k' =>
+      match seq_next q id PLoop d w with
+      | NItem it PLoop w' => let (its, w'') := poll_loop k' q id d w' in (it :: its, w'')
+      | NItem it _ w' => ([it], w')
+      | NEnd w' | NTimeout w' => ([], w')
+      end
+  end.
+
+Definition item_obs (it : item) : option (N * value) := match it with IOk i v => Some (i, v) | IErr _ => None end.
+Fixpoint ev_items (evs : list ev) : list (option (N * value)) :=
+  match evs with
+  | [] => []
+  | EvY i v :: r => Some (i, v) :: ev_items r
+  | EvErr :: r => None :: ev_items r
+  | _ :: r => ev_items r
+  end.
+Fixpoint ev_writes (evs : list ev) : list bytes :=
+  match evs with [] => [] | EvW b :: r => b :: ev_writes r | _ :: r => ev_writes r end.
+Lemma ev_items_app a b : ev_items (a ++ b) = ev_items a ++ ev_items b.
+Proof. induction a as [|[| | |] a IH]; cbn [app ev_items]; rewrite ?IH; reflexivity. Qed.
+Lemma ev_writes_app a b : ev_writes (a ++ b) = ev_writes a ++ ev_writes b.
+Proof. induction a as [|[| | |] a IH]; cbn [app ev_writes]; rewrite ?IH; reflexivity. Qed.
+
+Definition valid_id (w : world) (id : N) : Prop := (N.to_nat id < length (w_conns w))%nat.
+
+Lemma get_put w id c : valid_id w id -> get_conn (put_conn w id c) id = c.
+Proof.
+  unfold valid_id, get_conn, put_conn. cbn [w_conns]. generalize (N.to_nat id) as n. intros n.
+  revert n. induction (w_conns w) as [|x l IH]; intros n H; [cbn in H; lia|].
+  destruct n as [|n]; [reflexivity|]. cbn [set_conn nth]. apply IH. cbn in H. lia.
+Qed.
+
+Lemma rp_items vs s : ev_items (fst (rp vs s)) = match snd (rp vs s) with Some _ => [] | None => [None] end
+  /\ ev_writes (fst (rp vs s)) = [].
+Proof.
+  unfold rp. destruct (read_frame s) as [[f r]|]; [|split; reflexivity].
+  destruct (parse_enum FUEL vs f) as [[i v]|e| |]; split; reflexivity.
+Qed.
+
+Lemma loop_agrees q id d final : q_mode q = Loop final -> forall k w,
+  valid_id w id -> settled (get_conn w id) -> w_now w <= d ->
+  let '(evs, _) := seq_loop k (q_replies q) final (k_buf (get_conn w id)) in
+  let '(its, w') := poll_loop k q id d w in
+  map item_obs its = ev_items evs /\
+  w_log w' = rev (map (fun b => EWrite id (w_now w) b) (ev_writes evs)) ++ w_log w.
+Proof.
+  intros Hm. induction k as [|k IH]; intros w Hv Hs Hd; [cbn; split; reflexivity|].
+  cbn [seq_loop poll_loop]. rewrite (seq_next_is_rp q id d w Hs Hd). unfold is_final. rewrite Hm.
+  destruct (rp_items (q_replies q) (k_buf (get_conn w id))) as [RI RW].
+  destruct (rp (q_replies q) (k_buf (get_conn w id))) as [evs [[[i v] r]|]] eqn:Erp; cbn [fst snd] in RI, RW.
+  - set (w1 := write_t (at_time (put_conn w id {| k_queue := []; k_close := true; k_buf := r |}) (w_now w)) id ACK).
+    assert (Hv1 : valid_id w1 id) by (unfold valid_id, w1; cbn; rewrite set_conn_length; exact Hv).
+    assert (G1 : get_conn w1 id = {| k_queue := []; k_close := true; k_buf := r |}) by (apply (get_put w id _ Hv)).
+    assert (L1 : w_log w1 = EWrite id (w_now w) ACK :: w_log w) by reflexivity.
+    assert (N1 : w_now w1 = w_now w) by reflexivity.
+    destruct (final i).
+    + rewrite !ev_items_app, !ev_writes_app, RI, RW. cbn. split; [reflexivity|exact L1].
+    + specialize (IH w1 Hv1). rewrite G1 in IH. cbn [k_buf] in IH.
+      specialize (IH ltac:(split; reflexivity) ltac:(lia)).
+      destruct (seq_loop k (q_replies q) final r) as [t r'].
+      destruct (poll_loop k q id d w1) as [its w'']. destruct IH as [I1 I2].
+      rewrite !ev_items_app, !ev_writes_app, RI, RW. cbn [app map item_obs ev_items ev_writes]. split; [rewrite I1; reflexivity|].
+      rewrite I2, L1, N1. cbn [map rev]. rewrite <- app_assoc. reflexivity.
+  - unfold rp in Erp. destruct (read_frame (k_buf (get_conn w id))) as [[f r]|] eqn:Ef.
+    + destruct (parse_enum FUEL (q_replies q) f) as [[i v]|e| |]; try discriminate; injection Erp as <-; cbn; split; reflexivity.
+    + injection Erp as <-. cbn. split; reflexivity.
+Qed.
+
+(* run_seq with the loop fuel as a parameter (run_seq itself uses one more than the bytes left after the acknowledgement) *)
+Definition run_seq_fuel (k : nat) (m : mode) (cmd : bytes) (ack vs : list variant) (s : bytes) : list ev :=
+  match rp ack s with
+  | (evs, None) => EvW cmd :: evs
+  | (evs, Some (_, _, r)) =>
+      match m with
+      | Single =>
+          match rp vs r with
+          | (e2, None) => EvW cmd :: evs ++ e2
+          | (e2, Some (i, v, r2)) => EvW cmd :: evs ++ e2 ++ [EvW ACK; EvY i v]
+          end
+      | Loop final => EvW cmd :: evs ++ fst (seq_loop k vs final r)
+      end
+  end.
+
+Lemma run_seq_is_fuel m cmd ack vs s :
+  fst (run_seq m cmd ack vs s) =
+  run_seq_fuel (match rp ack s with (_, Some (_, _, r)) => S (length r) | _ => O end) m cmd ack vs s.
+Proof.
+  unfold run_seq, run_seq_fuel. destruct (rp ack s) as [evs [[[i v] r]|]]; [|reflexivity].
+  destruct m; [destruct (rp vs r) as [e2 [[[i2 v2] r2]|]]; reflexivity|].
+  destruct (seq_loop (S (length r)) vs final r). reflexivity.
+Qed.
+
+(* the client's side of one exchange: poll from the start until the sequence says it is done *)
+Definition poll_exchange (k : nat) (q : seqdef) (id d : N) (w : world) : list item * world :=
+  match seq_next q id PStart d w with
+  | NItem it PLoop w' => let (its, w'') := poll_loop k q id d w' in (it :: its, w'')
+  | NItem it _ w' => ([it], w')
+  | NEnd w' | NTimeout w' => ([], w')
+  end.
+
+Lemma rp_unfold vs s : rp vs s =
+  match read_frame s with
+  | None => ([EvR s; EvErr], None)
+  | Some (f, r) => match parse_enum FUEL vs f with
+                   | Ok (i, v) => ([EvR f], Some (i, v, r))
+                   | _ => ([EvR f; EvErr], None)
+                   end
+  end.
+Proof. reflexivity. Qed.
+
+Theorem exchange_agrees q id d k w : valid_id w id -> settled (get_conn w id) -> w_now w <= d ->
+  let evs := run_seq_fuel (S k) (q_mode q) (q_cmd q) ack_enum (q_replies q) (k_buf (get_conn w id)) in
+  let '(its, w') := poll_exchange k q id d w in
+  map item_obs its = ev_items evs /\
+  w_log w' = rev (map (fun b => EWrite id (w_now w) b) (ev_writes evs)) ++ w_log w.
+Proof.
+  intros Hv Hs Hd. cbv zeta.
+  set (s := k_buf (get_conn w id)).
+  set (w0 := write_t w id (q_cmd q)).
+  assert (L0 : w_log w0 = EWrite id (w_now w) (q_cmd q) :: w_log w) by reflexivity.
+  (* the client's first poll, step by step *)
+  assert (P0 : seq_next q id PStart d w =
+    match read_frame s with
+    | None => NItem (IErr 0) PDone w0
+    | Some (f, r) =>
+        let w1 := at_time (put_conn w0 id {| k_queue := []; k_close := true; k_buf := r |}) (w_now w) in
+        match parse_enum FUEL ack_enum f with
+        | Ok _ => seq_next q id PLoop d w1
+        | _ => NItem (IErr 1) PDone w1
+        end
+    end).
+  { unfold seq_next at 1, read_parse. fold w0.
+    change (get_conn w0 id) with (get_conn w id). change (w_now w0) with (w_now w).
+    rewrite (read_packet_t_settled _ _ Hs). fold s.
+    destruct (read_frame s) as [[f r]|]; [|destruct (w_now w <=? d) eqn:E; [reflexivity|lia]].
+    destruct (w_now w <=? d) eqn:E; [|lia]. cbv zeta.
+    destruct (parse_enum FUEL ack_enum f) as [[ia va]|e| |]; reflexivity. }
+  unfold poll_exchange. rewrite P0. clear P0. unfold run_seq_fuel. fold s. rewrite (rp_unfold ack_enum s).
+  destruct (read_frame s) as [[f r]|] eqn:Ef; [|cbn; split; [reflexivity|exact L0]].
+  cbv zeta.
+  set (w1 := at_time (put_conn w0 id {| k_queue := []; k_close := true; k_buf := r |}) (w_now w)).
+  assert (L1 : w_log w1 = EWrite id (w_now w) (q_cmd q) :: w_log w) by reflexivity.
+  destruct (parse_enum FUEL ack_enum f) as [[ia va]|e| |]; try (cbn; split; [reflexivity|exact L1]).
+  assert (Hv1 : valid_id w1 id) by (unfold valid_id, w1, w0; cbn; rewrite set_conn_length; exact Hv).
+  assert (G1 : get_conn w1 id = {| k_queue := []; k_close := true; k_buf := r |}).
+  { unfold w1. apply (get_put w0 id). unfold valid_id, w0. cbn. exact Hv. }
+  assert (S1 : settled (get_conn w1 id)) by (rewrite G1; split; reflexivity).
+  assert (N1 : w_now w1 = w_now w) by reflexivity.
+  rewrite (seq_next_is_rp q id d w1 S1 ltac:(lia)). rewrite G1. cbn [k_buf]. rewrite N1.
+  destruct (rp_items (q_replies q) r) as [RI RW].
+  destruct (q_mode q) as [|final] eqn:Hm.
+  - (* a single reply *)
+    destruct (rp (q_replies q) r) as [e2 [[[i v] r2]|]] eqn:Erp; cbn [fst snd] in RI, RW.
+    + unfold is_final. cbn [ev_items ev_writes]. rewrite !ev_items_app, !ev_writes_app, RI, RW. cbn. split; reflexivity.
+    + assert (Q : match read_frame r with
+                  | Some (f0, r0) => NItem (IErr 1) PDone (at_time (put_conn w1 id {| k_queue := []; k_close := true; k_buf := r0 |}) (w_now w))
+                  | None => NItem (IErr 0) PDone w1
+                  end = NItem (IErr (match read_frame r with Some _ => 1 | None => 0 end)) PDone
+                          (match read_frame r with
+                           | Some (f0, r0) => at_time (put_conn w1 id {| k_queue := []; k_close := true; k_buf := r0 |}) (w_now w)
+                           | None => w1 end)) by (destruct (read_frame r) as [[f0 r0]|]; reflexivity).
+      rewrite Q. cbn [ev_items ev_writes]. rewrite !ev_items_app, !ev_writes_app, RI, RW. cbn [app map item_obs rev].
+      split; [reflexivity|]. destruct (read_frame r) as [[f0 r0]|]; exact L1.
+  - (* a loop: the first reply belongs to this poll, the rest to poll_loop *)
+    cbn [seq_loop].
+    destruct (rp (q_replies q) r) as [e2 [[[i v] r2]|]] eqn:Erp; cbn [fst snd] in RI, RW.
+    + set (w2 := write_t (at_time (put_conn w1 id {| k_queue := []; k_close := true; k_buf := r2 |}) (w_now w)) id ACK).
+      assert (L2 : w_log w2 = EWrite id (w_now w) ACK :: EWrite id (w_now w) (q_cmd q) :: w_log w) by reflexivity.
+      unfold is_final. destruct (final i) eqn:Hf.
+      * cbn [fst ev_items ev_writes]. rewrite !ev_items_app, !ev_writes_app, RI, RW. cbn. split; reflexivity.
+      * assert (Hv2 : valid_id w2 id) by (unfold valid_id, w2; cbn; rewrite set_conn_length; exact Hv1).
+        assert (G2 : get_conn w2 id = {| k_queue := []; k_close := true; k_buf := r2 |}) by (apply (get_put w1 id _ Hv1)).
+        pose proof (loop_agrees q id d final Hm k w2 Hv2) as LA. rewrite G2 in LA. cbn [k_buf] in LA.
+        specialize (LA ltac:(split; reflexivity) ltac:(cbn; lia)).
+        destruct (seq_loop k (q_replies q) final r2) as [t r'].
+        destruct (poll_loop k q id d w2) as [its w'']. destruct LA as [I1 I2].
+        cbn [fst ev_items ev_writes]. rewrite !ev_items_app, !ev_writes_app, RI, RW.
+        cbn [app map item_obs ev_items ev_writes]. split; [rewrite I1; reflexivity|].
+        rewrite I2, L2. change (w_now w2) with (w_now w). cbn [map rev]. rewrite <- !app_assoc. reflexivity.
+    + assert (Q : match read_frame r with
+                  | Some (f0, r0) => NItem (IErr 1) PDone (at_time (put_conn w1 id {| k_queue := []; k_close := true; k_buf := r0 |}) (w_now w))
+                  | None => NItem (IErr 0) PDone w1
+                  end = NItem (IErr (match read_frame r with Some _ => 1 | None => 0 end)) PDone
+                          (match read_frame r with
+                           | Some (f0, r0) => at_time (put_conn w1 id {| k_queue := []; k_close := true; k_buf := r0 |}) (w_now w)
+                           | None => w1 end)) by (destruct (read_frame r) as [[f0 r0]|]; reflexivity).
+      rewrite Q. cbn [fst ev_items ev_writes]. rewrite !ev_items_app, !ev_writes_app, RI, RW. cbn [app map item_obs rev].
+      split; [reflexivity|]. destruct (read_frame r) as [[f0 r0]|]; exact L1.
+Qed.
